@@ -2323,3 +2323,119 @@ Example C01_statement_all3_nonvacuous :
   | _, _ => False
   end.
 Proof. exact statement_all5_nonvacuous. Qed.
+
+(* ====================================================================================== *)
+(* Third file-BASE arm: path-relative scheme-less references against a file base (c01file4) *)
+(* ====================================================================================== *)
+From RU Require Import Proofs.C01_EqFileBase.
+
+(* the Standard's side alone: base = a file URL without opaque path whose path does not END in a normalized drive
+   letter; cleaned reference without scheme, first character not '/', '\', '?', '#', not starting with a Windows drive
+   letter: no scheme state -> file state ("otherwise": host and path of the base, shorten) -> path state on the base
+   path without its last segment *)
+Theorem C01_file_rel_path_spec : forall shp inp sb,
+  has_opaque_path sb = false -> list_eqb (su_scheme sb) str_file = true -> forall c t,
+  inp = c :: t -> spec_scheme inp = None ->
+  is_sl c = false -> (c =? 63) = false -> (c =? 35) = false ->
+  starts_with_windows_drive_letter inp = false -> last_not_nwdl (path_segments sb) = true ->
+  Runs shp inp (Some sb) m0
+    (BDone (file_tail (fkeep sb (removelast (path_segments sb))) (spath_f inp (removelast (path_segments sb)) []))).
+Proof. exact runs_file_rel_path. Qed.
+Print Assumptions C01_file_rel_path_spec.
+
+(* the model's side alone: parser.rs starts_with_windows_drive_letter_segment on the input iterator is the Standard's
+   "starts with a Windows drive letter" on the cleaned text; shorten_path on "pre" + the serialized segments P drops
+   the last segment and keeps its '/' when that segment is not a normalized drive letter *)
+Theorem C01_file_rel_path_model_parts :
+  (forall l, starts_with_wdl_segment l = starts_with_windows_drive_letter (ntnl l))
+  /\ (forall pre P, forallb no_slash P = true -> P <> [] -> last_not_nwdl P = true ->
+        Parser.shorten_path STFile (nlen pre) (pre ++ flat P) = POk (Bs pre (removelast P))).
+Proof. split; [exact swdl_segment_spec | exact shorten_path_segments_f]. Qed.
+Print Assumptions C01_file_rel_path_model_parts.
+
+(* the class in_class_file_rel_path: `related` base with spec_base_ok whose Standard record is a file URL with a host
+   and a non-empty path that does not end in a normalized drive letter; scheme-less path-relative reference that does
+   not start with a Windows drive letter; the path loop on it, started on the base path without its last segment,
+   inside fpath_ok true (no ".." on a drive-letter-shaped last segment, no drive letter becoming the first segment, no
+   first segment going on after a drive-letter prefix), leading-slash collapse harmless (strip_stable).  agree_good +
+   the result pair is a full_base pair.  NO hypothesis on the host functions (no host is parsed).  Beside
+   C01_statement_all3: these references are in class 1 of Known_C01. *)
+Theorem C01_eq_file_rel_path : forall dbg hp hpo hd shp shs input b sb,
+  usv_list input -> related dbg shs b sb -> spec_base_ok sb = true -> in_class_file_rel_path sb input = true ->
+  agree_good dbg shs (parse_url dbg hp hpo hd None (Some b) input) (spec_basic_url_parse shp input (Some sb))
+  /\ (forall su u, spec_basic_url_parse shp input (Some sb) = BDone su -> parse_url dbg hp hpo hd None (Some b) input = POk u ->
+        full_base dbg shs u su).
+Proof. exact class_file_rel_path_good. Qed.
+Check C01_eq_file_rel_path : forall dbg hp hpo hd shp shs input b sb,
+  usv_list input -> related dbg shs b sb -> spec_base_ok sb = true ->
+  (negb (has_opaque_path sb) && list_eqb (su_scheme sb) str_file && opt_is_some (su_host sb)
+   && negb (is_nil (path_segments sb)) && last_not_nwdl (path_segments sb))
+  && match spec_scheme (spec_clean input) with None => true | Some _ => false end
+  && match spec_clean input with
+     | c :: t => negb (is_sl c) && negb (c =? 63) && negb (c =? 35)
+                 && negb (starts_with_windows_drive_letter (c :: t))
+                 && fpath_ok true (c :: t) (removelast (path_segments sb)) []
+                 && strip_stable (fst (spath_f (c :: t) (removelast (path_segments sb)) []))
+     | [] => false
+     end = true ->
+  agree_good dbg shs (parse_url dbg hp hpo hd None (Some b) input) (spec_basic_url_parse shp input (Some sb))
+  /\ (forall su u, spec_basic_url_parse shp input (Some sb) = BDone su -> parse_url dbg hp hpo hd None (Some b) input = POk u ->
+        full_base dbg shs u su).
+Print Assumptions C01_eq_file_rel_path.
+
+(* with the host model plugged in; bases in full_base; no oracle hypothesis at all *)
+Theorem C01_statement_file_rel_path_model : forall dbg idna input b sb,
+  usv_list input -> full_base dbg spec_host_serializer b sb -> in_class_file_rel_path sb input = true ->
+  agree_good dbg spec_host_serializer
+    (parse_url dbg (host_parse idna) host_parse_opaque host_display None (Some b) input)
+    (spec_basic_url_parse (spec_host_parser idna) input (Some sb))
+  /\ (forall su u, spec_basic_url_parse (spec_host_parser idna) input (Some sb) = BDone su ->
+        parse_url dbg (host_parse idna) host_parse_opaque host_display None (Some b) input = POk u ->
+        full_base dbg spec_host_serializer u su).
+Proof. exact class_file_rel_path_model. Qed.
+Print Assumptions C01_statement_file_rel_path_model.
+
+(* non-vacuity: against the parse result of file://h/tmp/x the references y, a/../b?q#f, ../../../up are in the class
+   (and in class 1 of Known_C01); both sides give file://h/tmp/y, file://h/tmp/b?q#f, file://h/up *)
+Example C01_eq_file_rel_path_nonvacuous :
+  let idna := id_idna in
+  let P base i := parse_url true (host_parse idna) host_parse_opaque host_display None base i in
+  let S sbase i := spec_basic_url_parse (spec_host_parser idna) i sbase in
+  let i1 := [121] in
+  let i2 := [97;47;46;46;47;98;63;113;35;102] in
+  let i3 := [46;46;47;46;46;47;46;46;47;117;112] in
+  match P None file_base_text, S None file_base_text with
+  | POk b, BDone sb =>
+      let ok i h := in_class_file_rel_path sb i = true /\ known_c01 (Some b) i = 1
+                    /\ match P (Some b) i, S (Some sb) i with
+                       | POk u, BDone su => q_href u = h
+                                            /\ api_of_model true u = Some (spec_api_list spec_host_serializer su)
+                       | _, _ => False end in
+      ok i1 [102;105;108;101;58;47;47;104;47;116;109;112;47;121]
+      /\ ok i2 [102;105;108;101;58;47;47;104;47;116;109;112;47;98;63;113;35;102]
+      /\ ok i3 [102;105;108;101;58;47;47;104;47;117;112]
+  | _, _ => False
+  end.
+Proof. exact class_file_rel_path_nonvacuous. Qed.
+
+(* the exclusion "the base path does not end in a normalized drive letter" is necessary (a divergence of the pinned
+   code, mechanism of F-C01-5 through shorten_path on the base): against the parse result of file:///a/C: - on which
+   the two sides agree - the reference  x  gives file:///a/x in the Standard and file:///a/C:x in parser.rs.
+   Replay on the crate: Url::parse("file:///a/C:").unwrap().join("x") *)
+Theorem C01_file_rel_path_exclusion_necessary :
+  let idna := id_idna in
+  let P base i := parse_url true (host_parse idna) host_parse_opaque host_display None base i in
+  let S sbase i := spec_basic_url_parse (spec_host_parser idna) i sbase in
+  let bt := [102;105;108;101;58;47;47;47;97;47;67;58] in
+  match P None bt, S None bt with
+  | POk b, BDone sb =>
+      api_of_model true b = Some (spec_api_list spec_host_serializer sb)
+      /\ file_base_ok sb = false /\ known_c01 (Some b) [120] = 1
+      /\ match P (Some b) [120], S (Some sb) [120] with
+         | POk u, BDone su => q_href u = [102;105;108;101;58;47;47;47;97;47;67;58;120]
+                              /\ get_href spec_host_serializer su = [102;105;108;101;58;47;47;47;97;47;120]
+         | _, _ => False end
+  | _, _ => False
+  end.
+Proof. exact class_file_rel_path_exclusion_necessary. Qed.
+Print Assumptions C01_file_rel_path_exclusion_necessary.
